@@ -7,16 +7,46 @@ TRUST = ("Trusted base: Go runtime and testing/synctest (quiescence + fake clock
          "evaluators. Preemption at Go statement / loop / function entry / VM instruction granularity; sampled, not enumerated.")
 
 CLAIMED = {
+    "C11": dict(
+        engine="E-CHK",
+        technique="deterministic simulation: seeded token scheduler over the instrumented type checker and compiler, PRNG-controlled map order, differential oracle against the sequential configuration",
+        text="Seeded search over interleavings of the concurrently checked (and compiled) method bodies at MethodCheckConcurrencyLimit 2/3/8/100 for generated multi-method programs, with Go map iteration order as a further explored dimension. Each run is compared with the same source checked at limit 1: diagnostic multiset, acceptance and the behaviour of the compiled program on the VM must be equal, and no task may panic. Exploration level; the data-race clause is decided only through its statement-granularity consequences.",
+        design_ref="DESIGN.md 5.3",
+    ),
+    "C15": dict(
+        engine="E-BODY",
+        technique="deterministic simulation: generated bodies run as plain / generator / async variants on pools of size 1-4 under seeded schedules, checked against an independent reference evaluator",
+        text="Generated function bodies are emitted as def, def * and async def (plus yield-bearing bodies with a list-building twin) and driven to completion under seeded schedules and pool sizes; the printed results of all variants must equal a big-integer reference evaluator, generators must yield in order and then signal the end, every promise must settle exactly once, nothing may deadlock or panic. Exploration level.",
+        design_ref="DESIGN.md 5.2",
+    ),
+    "C16": dict(
+        engine="E-PROM",
+        technique="deterministic simulation: promise DAG programs under seeded interleavings of AWAIT / continuation registration / settlement with pool 1-4 and queue capacity 1..4N, lost-wake-up and exactly-once oracle",
+        text="Generated programs build promise DAGs (leaf, timeout, throwing, chained, joined, guarded tasks, go threads awaiting synchronously) and run under seeded schedules with statement-level preemption inside Promise, ThreadPool, threadWorker and the AWAIT instructions. The run must end, each awaiter must be resumed exactly once (token multiset equals the reference evaluator's). Queue saturation below the enqueue bound is a listed known finding; any other deadlock or token anomaly is a violation. Exploration level.",
+        design_ref="DESIGN.md 5.1",
+    ),
+    "C25": dict(
+        engine="E-SYNC",
+        technique="deterministic simulation: seeded schedules over real channels, mutexes, wait groups and Once (Go API clients and generated Elk programs), porcupine linearizability against FIFO-with-close, contract oracles, misuse sequences",
+        text="Go-API clients drive ChannelOfValue (peer close and cancellation at arbitrary steps) with porcupine checking the history against a FIFO queue with a closed flag; Mutex/RWMutex/WaitGroup clients carry shadow state that exposes any exclusion or counting violation; generated Elk programs cover producers/consumers, select, lock-protected updates, Once, WaitGroup and misuse sequences with documented-error expectations; a process death (Go fatal error) is attributed and reported. Exploration level.",
+        design_ref="DESIGN.md 5.4",
+    ),
     "C26": dict(
         engine="E-SYM",
         technique="deterministic simulation: seeded token scheduler over instrumented real code + porcupine linearizability against a sequential intern table",
         text="Seeded search over interleavings of 2-5 client tasks calling the real SymbolTableStruct (fresh and global) with statement-level preemption inside every method; every history is checked for linearizability against a sequential intern table and for the bijection invariants. Exploration: evidence about the schedules sampled, each replayable from its file.",
         design_ref="DESIGN.md 5.5",
     ),
+    "C33": dict(
+        engine="E-CANCEL",
+        technique="deterministic simulation with fault injection: context cancellation injected at a seeded scheduler tick into 32 non-terminating program shapes compiled with abort checks; bounded liveness under fair scheduling after the fault",
+        text="Each case compiles a non-terminating shape the way the REPL does, runs it in the main thread or a go thread, cancels the context at a PRNG-chosen tick (immediately if everything is blocked) and then requires, under fair round-robin, that the main thread ends with ExecutionAbortedError and every go thread ends within 600000 scheduler ticks. Context-less blocking operations (sync await, WaitGroup#wait, Mutex#lock, sleep) are listed known findings keyed by shape. Exploration level.",
+        design_ref="DESIGN.md 5.6",
+    ),
 }
 
 PLANNED = {pid: "simulation check designed in DESIGN.md section 5, engine not built yet" for pid in
-           ["C01", "C10", "C11", "C15", "C16", "C25", "C27", "C33", "C34"]}
+           ["C01", "C10", "C27", "C34"]}
 
 NA = {
     "C02": "pure function of one program run by one thread: no schedule, clock or fault in what it quantifies over (type soundness per program)",
